@@ -224,6 +224,8 @@ struct Val
     o.gut();
     return *this;
   }
+  bool operator==(const Val &o) const { return seq == o.seq && check == o.check && text == o.text; }
+  bool operator!=(const Val &o) const { return !(*this == o); }
   void gut()  // a moved-from value is recognisably not a value anybody assigned
   {
     seq   = ~0ull;
@@ -436,6 +438,76 @@ static void valueBurstRound(long bursts, long round, uint64_t rs)
   vh::evaluated(vh::hash64(vh::hash64(77, (uint64_t)bursts), (uint64_t)round), true);
 }
 
+// ---- value, burst protocol with a plain std::string payload: the values include the empty string and repeats, i.e.
+// values that equal what a moved-from or default-constructed std::string holds. Whatever was assigned last before the
+// producer stopped must be what the consumer obtains.
+static void stringBurstRound(long bursts, long round, uint64_t rs)
+{
+  TransactionalValue<std::string> tv;
+  std::string ctx = "#" + std::to_string(round) + " TransactionalValue<std::string> burst protocol (values incl. empty and repeated), bursts=" + std::to_string(bursts);
+  std::vector<std::vector<std::string>> script((size_t)bursts);
+  {
+    vh::Rng r(rs, 41);
+    uint64_t seq = 0;
+    std::string prev = "never";
+    for (long b = 0; b < bursts; ++b) {
+      int n = 1 + (int)r.below(3);
+      for (int i = 0; i < n; ++i) {
+        int c = (int)r.below(4);
+        std::string v = c == 0 ? std::string() : c == 1 ? prev : "value-" + std::to_string(++seq) + "-long-enough-to-live-on-the-heap-0123456789";
+        script[b].push_back(v);
+        prev = v;
+      }
+    }
+  }
+  std::atomic<long> stopped(-1), acked(-1);
+  std::atomic<int> go(0);
+  long lost = 0;
+  std::string firstBad;
+  std::thread producer([&]() {
+    while (!go.load()) {
+    }
+    for (long b = 0; b < bursts; ++b) {
+      for (size_t i = 0; i < script[b].size(); ++i)
+        tv = script[b][i];
+      stopped.store(b);
+      while (acked.load() != b)
+        std::this_thread::yield();
+    }
+  });
+  std::thread consumer([&]() {
+    while (!go.load()) {
+    }
+    long done = -1;
+    while (done < bursts - 1) {
+      long b = stopped.load();
+      tv.update();
+      std::string v = tv.get();
+      if (b > done) {
+        const std::string &want = script[b].back();
+        if (v != want) {
+          bool upd2 = tv.update();
+          std::string v2 = tv.get();
+          if (v2 != want) {
+            ++lost;
+            if (firstBad.empty())
+              firstBad = "burst " + std::to_string(b) + ": the producer stopped after assigning '" + want + "', the consumer holds '" + v2 + "' after two update() calls (the second returned " + (upd2 ? "true" : "false") + ")";
+          }
+        }
+        done = b;
+        acked.store(b);
+      }
+    }
+  });
+  go.store(1);
+  producer.join();
+  consumer.join();
+  if (lost)
+    vh::violation("C12:value:last-value-not-obtained", std::to_string(lost) + " burst(s) whose last value the consumer could not obtain although the producer had stopped; " + firstBad, ctx);
+  vh::count("string_value_bursts_checked", bursts);
+  vh::evaluated(vh::hash64(vh::hash64(78, (uint64_t)bursts), (uint64_t)round), true);
+}
+
 int main(int argc, char **argv)
 {
   vh::init(argc, argv);
@@ -462,6 +534,7 @@ int main(int argc, char **argv)
       bufferRound<uint64_t>(producers, per, pace, k, rs);
     valueRound((long)r.pick(std::vector<long>{2000, 10000, 50000}) * scale, pace, k, rs);
     valueBurstRound(300 * scale, k, rs);
+    stringBurstRound(300 * scale, k, rs);
     vh::count("rounds");
   }
   return vh::finish();
